@@ -34,3 +34,8 @@ def run(ctx):
         "LIMIT/OFFSET state machine emits exactly firstn/skipn of the interleaved input for every interleaving of partitions (no underflow, final after Exhausted); generate_series deals every value to exactly one partition for any partition count; plus the split-invariance theorems of C06 (joins), C07 (aggregates), C08 (sort/merge)",
         "each generated query runs under 5 configurations drawn from partitions {1,2,3,5,16,64,512} x batch_size {1,2,3,7,8,64,2048,8192} x hash joins on/off x threads {1,2,16} / deterministic schedules, over tables whose row counts sit at, below and above the batch sizes; every answer is judged against the reference semantics (hence all configurations agree); distinct = distinct (SQL text, config)",
         timeout_s=90)
+
+
+def replay(ctx, payload):
+    from . import sqlrun
+    return sqlrun.replay(ctx, payload)
